@@ -472,16 +472,19 @@ func monC09(c *child.Ctx, replay json.RawMessage) {
 			k.TolMs, k.More, k.EOFAt, k.PauseMs = 60, nil, nil, nil
 			k.Consumers = []consumerCfg{{Cap: 0, Profile: 0, StallAtMsg: r.Range(1, 3), StallMs: r.Range(90, 160)}}
 			base := runSequential(fixedStart, slog.LevelDebug, input)
+			// ONE interruption (a double end-of-file), placed one byte into one of the
+			// messages that follow the one the consumer is holding: when the pipeline has
+			// backed up behind the consumer, the byte in flight is the first byte of some
+			// message, how many messages further on depends on the buffering in between.
+			// Nothing may interrupt the source before that point, or the hold-up is over
+			// before the pipeline has backed up.
+			target := k.Consumers[0].StallAtMsg - 1 + (i/8)%8
 			off := 0
 			for mi := range base {
 				off += len(base[mi].RawData)
-				if mi >= k.Consumers[0].StallAtMsg-1 && mi < k.Consumers[0].StallAtMsg+5 && off+1 < len(input) {
-					at := off + 1 + mi%2
-					if n := len(k.EOFAt); n > 0 && at <= k.EOFAt[n-1] {
-						continue // every series is a double one, with data before the next
-					}
-					k.EOFAt = append(k.EOFAt, at, at)
-					k.PauseMs = append(k.PauseMs, 0, 0)
+				if mi == target && off+1 < len(input) {
+					k.EOFAt = []int{off + 1, off + 1}
+					k.PauseMs = []int{0, 0}
 				}
 			}
 			k.Chunk = 5000
